@@ -121,8 +121,9 @@ class Surface(SplineObject):
         v = ensure_listlike(v)
         # dNus = [self.bases[0].evaluate(u, d, above) for d in range(derivs[0]+1)]
         # dNvs = [self.bases[1].evaluate(v, d, above) for d in range(derivs[1]+1)]
-        dNus = [self.bases[0].evaluate(u, d, above) for d in range(np.sum(derivs)+1)]
-        dNvs = [self.bases[1].evaluate(v, d, above) for d in range(np.sum(derivs)+1)]
+        above = ensure_listlike(above, self.pardim)
+        dNus = [self.bases[0].evaluate(u, d, above[0]) for d in range(np.sum(derivs)+1)]
+        dNvs = [self.bases[1].evaluate(v, d, above[1]) for d in range(np.sum(derivs)+1)]
 
         d0ud0v = evaluate([dNus[0], dNvs[0]], self.controlpoints, tensor)
         result = np.zeros(d0ud0v.shape[:-1] + (self.dimension,))
